@@ -365,7 +365,7 @@ func c07Compact(n int) []byte {
 
 func c07PkLen(r *vhRng, mask int) int {
 	switch {
-	case r.Chance(1, 40):
+	case r.Chance(1, 120):
 		l := r.Pick(65534, 65535, mask+255*r.Intn(257), mask+255*(1+r.Intn(256))-1, mask+255*(1+r.Intn(256))+1)
 		if l > 65535 {
 			l = 65535
